@@ -596,6 +596,8 @@ def rule_info_syntax(ctx):
 RULES = [("depth-units", rule_depth_units), ("sequence", rule_sequence), ("pv-legal", rule_pv_legal), ("score-src", rule_score_src), ("move-text", rule_move_text), ("info-syntax", rule_info_syntax)]
 # "a principal variation that is a sequence of legal moves" rests on the legality filter
 RULES += engine.premise_rules("c01", ["filter", "probe"])
+# the reported score / move of an iteration is what its completed root search recorded
+RULES += engine.premise_rules("c11", ["root-result"])
 
 
 def run(tier):
